@@ -70,6 +70,10 @@ func (bf *Bitfield) Add(id hotstuff.ID) {
 
 // Contains returns true if the set contains the ID.
 func (bf Bitfield) Contains(id hotstuff.ID) bool {
+	if id == 0 {
+		// IDs start at 1; index(0) would yield a negative bit index.
+		return false
+	}
 	byteIdx, bitIdx := index(id)
 	if len(bf.data) <= byteIdx {
 		return false
